@@ -2373,6 +2373,25 @@ class PyCdlib:
 
         self._initialized = True
 
+    def _open_fp_checked(self, fp):
+        # type: (IO) -> None
+        """
+        An internal method to open an existing ISO, turning the low-level
+        failures that damaged or truncated data provokes while parsing
+        (short reads, out-of-range offsets, missing table entries) into the
+        documented PyCdlibInvalidISO exception.
+
+        Parameters:
+         fp - The file object containing the ISO to open up.
+        Returns:
+         Nothing.
+        """
+        try:
+            self._open_fp(fp)
+        except (struct.error, IndexError, KeyError, ValueError, TypeError,
+                AttributeError, OverflowError, ZeroDivisionError) as e:
+            raise pycdlibexception.PyCdlibInvalidISO('Corrupt or truncated ISO (%s: %s)' % (type(e).__name__, e))
+
     def _get_and_write_fp(self, iso_path, outfp, blocksize):
         # type: (bytes, BinaryIO, int) -> None
         """
@@ -4136,7 +4155,7 @@ class PyCdlib:
         fp = open(filename, mode)  # pylint: disable=consider-using-with,unspecified-encoding
         self._managing_fp = True
         try:
-            self._open_fp(fp)
+            self._open_fp_checked(fp)
         except Exception:
             fp.close()
             raise
@@ -4158,7 +4177,7 @@ class PyCdlib:
         if self._initialized:
             raise pycdlibexception.PyCdlibInvalidInput('This object already has an ISO; either close it or create a new object')
 
-        self._open_fp(fp)
+        self._open_fp_checked(fp)
 
     def get_file_from_iso(self, local_path, **kwargs):
         # type: (str, Union[str, int]) -> None
